@@ -62,6 +62,12 @@ pub const PROBES: &[&str] = &[
     "from t | join u (==a) | derive {x = t.b + u.d} | select {this.*} | sort x",
     // s-strings with several arguments
     "from t | select {x = s\"F({a}, {b}, {c})\", y = s\"G({c}, {a})\"} | filter x > y",
+    // two aliases of the column the relation is sorted by: which one names the final ORDER BY?
+    "from t | sort a | derive {b2 = a, c2 = a} | select {b2, c2} | take 5",
+    "from t | sort {a, -b} | derive {x = a, y = b, z = a} | select {z, y, x} | take 5 | filter x > 0",
+    // two / three unknown header options: error text
+    "prql foo:1 bar:2\nfrom t",
+    "prql zeta:\"z\" alpha:1 target:sql.sqlite mid:2\nfrom t",
 ];
 
 #[derive(Clone, Debug, PartialEq)]
